@@ -240,6 +240,9 @@ static int g_hist_no = 0;
 
 static void run_history(const Hist& h)
 {
+	// the library writes with MSG_NOSIGNAL: a client that closes early must not kill the process. Keep the default SIGPIPE
+	// disposition here (the runtime ignores it otherwise) so that a write without that protection is visible as a crash.
+	vf::die_on_sigpipe();
 	g_accepts = 0;
 	g_pointno = 0;
 	Rec* rec = new Rec;
